@@ -24,25 +24,35 @@ Clause → theorem
   Jacobian = |det d transform/dx|.  `TransformedModel.pdf(x)` is
   `model.pdf(transform(x)) * jacobian(x)` with x in the TRANSFORMED space (hs,tz), so the map whose
   Jacobian is needed is `_transform : (hs,tz) ↦ (hs, F·hs/tz²)`; its four partial derivatives
-  and |det| = 2·F·hs/tz³ = `_jacobian(hs,tz)`                  jacobian_hs_s (steepness_deriv_tz, steepness_deriv_hs)
+  and |det| = 2·F·hs/tz³ = `_jacobian(hs,tz)`                  jacobian_hs_s (steepness_deriv_tz, steepness_deriv_hs),
+                                                                jacobian_is_abs_det (|a·d − b·c| for ANY partials a b c d)
   pdf is the push-forward: composition                         tpdf_def, tpdf_pushforward
   … the conditional density of Tz given Hs it induces is the derivative of the exact
-  conditional cdf 1 − G(F·hs/t²) the harness compares samples with   tz_conditional_cdf_deriv
+  conditional cdf 1 − G(F·hs/t²) the harness compares samples with   tz_conditional_density_is_cdf_deriv (product-form
+                                                                base density; about `tPdf`), tz_conditional_cdf_deriv (chain rule only)
   … integrates to one / cdf = ecdf of samples                  PARTIAL — observed per run (quadrature, DKW)
-  samples = inverse-transformed base samples, map back onto them   tsample_def, tsample_pushforward
+  samples = inverse-transformed base samples, map back onto them   tsample_def (definitional), tsample_pushforward (round trip as
+                                                                hypothesis), tsample_pushforward_predef (shipped triple, positive quadrant)
   empirical cdf counts rows componentwise ≤ x                   (model `ecdfCount`, tied by correspondence)
   conditional density is evaluated on the row (given…, x at `dim`, …given)   xhat_spec
   rejection sampler: accept iff y < pdf(x); result = first n accepted in stream order;
-  batch sizes; earliest stop                                    accepted_mem, accepted_spec
+  batch sizes; earliest stop                                    accepted_mem_iff (accepted_mem: one direction; list form
+                                                                acceptBatch_eq_filter), accepted_spec
   … max_iter exits, CouldNotSampleError                         maxiter_branch_spec, could_not_sample_spec
   x_max search                                                  xmax_search_spec, xmax_search_terminates,
                                                                 xmax_below_threshold_floor
+  `conditional_sample` as a whole (what the driver op `rej` runs: `condSample`) = row density → x_max search →
+  envelope f_max = slack · max over the grid → rejection loop, all on ONE density `condPdf`
+                                                                condSample_spec, condSample_accepted_spec, condSample_maxiter_spec, condSample_could_not_sample,
+                                                                condSample_envelope (ordered field; grid points only), listMax_mem,
+                                                                listMax_ge, condPdf_eq
   "without truncating its tails" FAILS for the code as it is: the search compares the JOINT density
   with an absolute threshold, so the same conditional density gets x_max above its mode in the bulk
   and x_max = 0.05 below its mode when the marginal factor is small      xmax_truncates  (known finding #17)
-  reproduced exactly when random_state is set: which stream each Monte-Carlo step uses
-                                                                iform_seeded_reproducible,
-                                                                iform_unforwarded_counterexample (defect #16, repaired)
+  reproduced exactly when random_state is set                   PARTIAL — OBSERVED per run (two seeded real runs compared bit for bit).
+                                                                Lean has only an abstract picture `iformTPoint` that neither driver nor
+                                                                harness runs: iform_seeded_reproducible_trivial (rfl),
+                                                                iform_unforwarded_model_witness (defect #16, repaired)
   … and cuts everything between the returned candidate and the previous one        xmax_cuts_between_candidates (known finding)
   MC agreement of conditional samples / IFORM ≈ transformed IFORM              PARTIAL — observed per run
   Monte-Carlo sample sizes (`precision_factor` in [0.1, 1]; Model/McSize.lean over ℚ, int = Nat.floor):
@@ -52,7 +62,7 @@ Clause → theorem
                                                                 condN_exceedances, condN_mono_pf, clampN_bounds, clampN_eq
   p_small                                                       pSmallMarginal_le, pSmallCond_le_half, pSmallCond_pos
   (the Float instance of the same definitions is compared with the n the real code requests, harness part F)
-  `iform_seeded_reproducible` is `rfl` on an abstract two-step model (same seed ⇒ same streams); that the code
+  `iform_seeded_reproducible_trivial` is `rfl` on an abstract two-step model (same seed ⇒ same streams); that the code
   forwards the model's random_state to every Monte-Carlo step is observed per run, not proven.
 -/
 import VirVerif.Model.Transform
@@ -206,6 +216,8 @@ theorem jacobian_hs_s (F hs tz : ℝ) (hF : 0 < F) (hhs : 0 < hs) (htz : 0 < tz)
   have : 0 < 2 * F * hs / tz ^ 3 := by positivity
   rw [one_mul, zero_mul, sub_zero, abs_neg, abs_of_pos this]
 
+/-- chain rule only (arbitrary `G`, `g`; mentions neither `tPdf` nor the base density): the statement
+about the transformed model's density is `tz_conditional_density_is_cdf_deriv`. -/
 theorem tz_conditional_cdf_deriv (G g : ℝ → ℝ) (F hs tz : ℝ) (htz : 0 < tz)
     (hG : HasDerivAt G (g (F * hs / (tz * tz))) (F * hs / (tz * tz))) :
     HasDerivAt (fun t => 1 - G (F * hs / (t * t)))
@@ -215,6 +227,37 @@ theorem tz_conditional_cdf_deriv (G g : ℝ → ℝ) (F hs tz : ℝ) (htz : 0 < 
   refine hc.congr_deriv ?_
   simp only [predefJacobian]
   ring
+
+/-- **the supplied Jacobian is |det| of WHATEVER the partial derivatives are** (ties the last
+conjunct of `jacobian_hs_s`, whose matrix entries are typed by hand there, to the derivatives: by
+uniqueness of derivatives any four partials `a b c d` of `_transform` at `(hs, tz)` satisfy
+`|a·d − b·c| = _jacobian(hs, tz)`). -/
+theorem jacobian_is_abs_det (F hs tz : ℝ) (hF : 0 < F) (hhs : 0 < hs) (htz : 0 < tz) (a b c d : ℝ)
+    (ha : HasDerivAt (fun h => (predefTransform Real.sqrt F (h, tz)).1) a hs)
+    (hb : HasDerivAt (fun t => (predefTransform Real.sqrt F (hs, t)).1) b tz)
+    (hc : HasDerivAt (fun h => (predefTransform Real.sqrt F (h, tz)).2) c hs)
+    (hd : HasDerivAt (fun t => (predefTransform Real.sqrt F (hs, t)).2) d tz) :
+    |a * d - b * c| = predefJacobian (fun b => b ^ 3) F (hs, tz) := by
+  obtain ⟨h1, h2, h3, h4, h5⟩ := jacobian_hs_s F hs tz hF hhs htz
+  rw [ha.unique h1, hb.unique h2, hc.unique h3, hd.unique h4]
+  exact h5
+
+/-- **the conditional density of Tz given Hs induced by `TransformedModel.pdf`.**  Base density of
+product form `base (h, s) = m h · g s` (marginal of Hs times conditional of S given that Hs; `g`
+may depend on the fixed `hs`), `G` a cdf of `g` at the point.  Then the transformed model's JOINT
+density `tPdf` at `(hs, tz)`, divided by the marginal density `m hs`, is the derivative in `tz` of
+the exact conditional cdf `t ↦ 1 − G(F·hs/t²)` the harness compares the Monte-Carlo samples with. -/
+theorem tz_conditional_density_is_cdf_deriv (base : ℝ × ℝ → ℝ) (m G g : ℝ → ℝ) (F hs tz : ℝ)
+    (htz : 0 < tz) (hm : m hs ≠ 0)
+    (hb : ∀ s, base (hs, s) = m hs * g s)
+    (hG : HasDerivAt G (g (F * hs / (tz * tz))) (F * hs / (tz * tz))) :
+    HasDerivAt (fun t => 1 - G (F * hs / (t * t)))
+      (tPdf base (predefTransform Real.sqrt F) (predefJacobian (fun b => b ^ 3) F) (hs, tz) / m hs)
+      tz := by
+  refine (tz_conditional_cdf_deriv G g F hs tz htz hG).congr_deriv ?_
+  have hT : predefTransform Real.sqrt F (hs, tz) = (hs, F * hs / (tz * tz)) := rfl
+  rw [tPdf, hT, hb]
+  field_simp
 
 example : |1 * (-(2 * (2:ℝ) * 3 / 5 ^ 3)) - 0 * (2 / (5 * 5))| = predefJacobian (fun b => b ^ 3) 2 ((3:ℝ), 5) :=
   (jacobian_hs_s 2 3 5 (by norm_num) (by norm_num) (by norm_num)).2.2.2.2
@@ -227,6 +270,8 @@ theorem tpdf_def {β α : Type} [Mul α] (base : β → α) (T : β → β) (J :
 theorem tsample_def {β : Type} (inv : β → β) (baseDraw : Nat → List β) (n : Nat) :
     tDraw (rowwise inv) baseDraw n = (baseDraw n).map inv := rfl
 
+/-- generic form: `h` (the round trip on the drawn rows) is a hypothesis; discharged for the
+shipped triple in `tsample_pushforward_predef`. -/
 theorem tsample_pushforward {β : Type} (T inv : β → β) (baseDraw : Nat → List β) (n : Nat)
     (h : ∀ y ∈ baseDraw n, T (inv y) = y) :
     (tDraw (rowwise inv) baseDraw n).map T = baseDraw n ∧
@@ -235,6 +280,24 @@ theorem tsample_pushforward {β : Type} (T inv : β → β) (baseDraw : Nat → 
   calc (baseDraw n).map (T ∘ inv) = (baseDraw n).map id :=
         List.map_congr_left (fun y hy => by simpa using h y hy)
     _ = baseDraw n := List.map_id _
+
+/-- `tsample_pushforward` with its hypothesis DISCHARGED for the shipped triple: on base samples in
+the positive quadrant, `_transform` maps the samples of the TransformedModel back onto the base
+samples (row by row, same number of rows). -/
+theorem tsample_pushforward_predef (F : ℝ) (hF : 0 < F) (baseDraw : Nat → List (ℝ × ℝ)) (n : Nat)
+    (hpos : ∀ y ∈ baseDraw n, 0 < y.1 ∧ 0 < y.2) :
+    (tDraw (rowwise (predefInverse Real.sqrt F)) baseDraw n).map (predefTransform Real.sqrt F) =
+      baseDraw n ∧
+    (tDraw (rowwise (predefInverse Real.sqrt F)) baseDraw n).length = (baseDraw n).length :=
+  tsample_pushforward (predefTransform Real.sqrt F) (predefInverse Real.sqrt F) baseDraw n
+    (fun y hy => by
+      obtain ⟨a, b⟩ := y
+      exact predef_roundtrip_inv F a b hF (hpos _ hy).1 (hpos _ hy).2)
+
+example : (tDraw (rowwise (predefInverse Real.sqrt (2 : ℝ))) (fun _ => [(3, 5), (1, 4)]) 2).map
+    (predefTransform Real.sqrt 2) = [(3, 5), (1, 4)] :=
+  (tsample_pushforward_predef 2 (by norm_num) (fun _ => [(3, 5), (1, 4)]) 2
+    (by intro y hy; simp at hy; rcases hy with rfl | rfl <;> norm_num)).1
 
 theorem xHatGo_after {α : Type} (dim : Nat) (x : α) :
     ∀ (k i : Nat) (g : List α), dim < i → g.length = k → xHatGo dim x k i g = some g
@@ -290,17 +353,23 @@ example : xHat 3 1 [(7 : Nat), 9] 5 = some [7, 5, 9] := by decide
 example : xHat 2 0 [(7 : Nat)] 5 = some [5, 7] := by decide
 example : xHat 3 1 [(7 : Nat)] 5 = none := by decide
 
-/-! ## 3b. reproducibility with `random_state` set (defect #16) -/
+/-! ## 3b. reproducibility with `random_state` set (defect #16)
 
-/-- after the repair: with a seed set, the contour point does not depend on the entropy of the run -/
-theorem iform_seeded_reproducible {S A B : Type} (streamOf : Nat → S) (marg : S → A) (cond : S → A → B)
+NOT a theorem about the code: `iformTPoint` is an abstract two-step picture of which stream each
+Monte-Carlo step uses; it is run neither by the driver nor by the harness.  The clause "reproduced
+exactly when random_state is set" is OBSERVED per run (two real runs with the same seed compared
+bit for bit), not proven. -/
+
+/-- (trivial: `rfl` for arbitrary `streamOf`/`marg`/`cond` — with `forwardMarg = true` and a seed the
+entropy arguments are simply not used by the definition) -/
+theorem iform_seeded_reproducible_trivial {S A B : Type} (streamOf : Nat → S) (marg : S → A) (cond : S → A → B)
     (seed e0 e1 e0' e1' : Nat) :
     iformTPoint streamOf marg cond (some seed) true e0 e1 =
       iformTPoint streamOf marg cond (some seed) true e0' e1' := rfl
 
-/-- before the repair (`marginal_icdf` drew with `random_state=None`): two runs with the same seed
-can differ — witness: the identity stream -/
-theorem iform_unforwarded_counterexample :
+/-- (witness in the abstract picture only) before the repair (`marginal_icdf` drew with
+`random_state=None`): two runs with the same seed can differ — witness: the identity stream -/
+theorem iform_unforwarded_model_witness :
     ∃ (streamOf : Nat → Nat) (marg : Nat → Nat) (cond : Nat → Nat → Nat) (seed e0 e0' e1 : Nat),
       iformTPoint streamOf marg cond (some seed) false e0 e1 ≠
         iformTPoint streamOf marg cond (some seed) false e0' e1 :=
@@ -325,13 +394,32 @@ theorem acceptBatch_eq_filter (pdf : α → α) :
     · simp [acceptBatch, h, acceptBatch_eq_filter pdf xs ys]
     · simp [acceptBatch, h, acceptBatch_eq_filter pdf xs ys]
 
-/-- every accepted value was drawn together with a `y` below the density at it -/
+/-- every accepted value was drawn together with a `y` below the density at it (one direction;
+the equivalence is `accepted_mem_iff`) -/
 theorem accepted_mem (pdf : α → α) (xs ys : List α) (x : α) (h : x ∈ acceptBatch pdf xs ys) :
     ∃ y, (x, y) ∈ xs.zip ys ∧ y < pdf x := by
   rw [acceptBatch_eq_filter] at h
   simp only [List.mem_map, List.mem_filter, decide_eq_true_eq] at h
   obtain ⟨⟨a, b⟩, ⟨hm, hlt⟩, rfl⟩ := h
   exact ⟨b, hm, hlt⟩
+
+/-- both directions: a value is accepted iff it was drawn together with a `y` below the density
+at it (`acceptBatch_eq_filter` is the list form: order and multiplicity) -/
+theorem accepted_mem_iff (pdf : α → α) (xs ys : List α) (x : α) :
+    x ∈ acceptBatch pdf xs ys ↔ ∃ y, (x, y) ∈ xs.zip ys ∧ y < pdf x := by
+  constructor
+  · exact accepted_mem pdf xs ys x
+  · rintro ⟨y, hm, hlt⟩
+    rw [acceptBatch_eq_filter]
+    simp only [List.mem_map, List.mem_filter, decide_eq_true_eq]
+    exact ⟨(x, y), ⟨hm, hlt⟩, rfl⟩
+
+theorem mem_acceptedOf (pdf : α → α) (bs : List (List α × List α)) (k : Nat) (x : α)
+    (h : x ∈ acceptedOf pdf bs k) : ∃ b ∈ bs, ∃ y, (x, y) ∈ b.1.zip b.2 ∧ y < pdf x := by
+  simp only [acceptedOf, List.mem_flatten, List.mem_map] at h
+  obtain ⟨l, ⟨b, hb, rfl⟩, hx⟩ := h
+  obtain ⟨y, hy⟩ := accepted_mem pdf b.1 b.2 x hx
+  exact ⟨b, List.mem_of_mem_take hb, y, hy⟩
 
 theorem acceptedOf_zero (pdf : α → α) (bs) : acceptedOf pdf bs 0 = [] := by simp [acceptedOf]
 
@@ -552,6 +640,20 @@ example : (match rejSample (fun _ : Nat => 0) 1 2
     | .error .couldNotSample => true | _ => false) = true := by
   decide
 
+/-- non-vacuity of `maxiter_branch_spec`, first disjunct (iterations ran out with fewer than `n`
+accepted): n = 2, max_iter = 1, one batch of max(2·10, 2) = 20 draws of which one is accepted -/
+example : (rejSample (fun _ : Nat => 5) 2 1
+    [(List.range 20, 3 :: List.replicate 19 9)]).toOption.map
+      (fun o => (o.sample, o.maxIterWarning, o.iterations)) = some ([0], true, 1) := by
+  decide
+/-- … second disjunct (`break` exactly at index `max_iter − 1`, all accepted values returned, more
+than `n`): n = 1, max_iter = 2, first batch accepts two values -/
+example : (rejSample (fun _ : Nat => 5) 1 2
+    [([1, 2, 3, 4, 5, 6, 7, 8, 9, 10], [9, 7, 3, 1, 9, 9, 9, 9, 9, 9]),
+     ([1, 2, 3, 4, 5, 6, 7, 8, 9, 10], [9, 9, 9, 9, 9, 9, 9, 9, 9, 9])]).toOption.map
+      (fun o => (o.sample, o.maxIterWarning, o.iterations)) = some ([3, 4], true, 1) := by
+  decide
+
 /-! ## 5. the `x_max` search -/
 
 section xmax
@@ -662,6 +764,261 @@ theorem xmax_search_terminates (pdf : K → K) (thr : K) :
   simp
 
 end field
+
+/-! ## 5b. `conditional_sample` as a whole: what the driver op `rej` executes (`condSample`) -/
+
+section cond
+variable {α : Type} [Mul α] [LT α] [DecidableLT α] [OfNat α 0]
+
+/-- the density `conditional_sample` works with (`pdf_like`): the JOINT density on the row that has
+`x` at position `dim` and the conditioning values elsewhere (`0` stands for the IndexError case,
+which `condSample` has excluded before it evaluates anything) -/
+def condPdf (pdfRow : List α → α) (nDim dim : Nat) (given : List α) : α → α :=
+  fun x => match xHat nDim dim given x with
+    | some row => pdfRow row
+    | none => 0
+
+omit [Mul α] [LT α] [DecidableLT α] in
+theorem condPdf_eq (pdfRow : List α → α) (nDim dim : Nat) (given : List α)
+    (hd : dim < nDim) (hg : given.length + 1 = nDim) (x : α) :
+    condPdf pdfRow nDim dim given x = pdfRow (given.take dim ++ x :: given.drop dim) := by
+  simp only [condPdf, xhat_spec nDim dim given x hd hg]
+
+omit [Mul α] [OfNat α 0] in
+/-- `np.max` of a non-empty list returns one of its entries (any `<`, also `Float`) -/
+theorem listMax_mem : ∀ (l : List α) (m : α), listMax l = some m → m ∈ l := by
+  intro l m h
+  cases l with
+  | nil => simp [listMax] at h
+  | cons x xs =>
+    simp only [listMax, Option.some.injEq] at h
+    subst h
+    suffices H : ∀ (ys : List α) (a : α),
+        ys.foldl (fun m y => if m < y then y else m) a = a ∨
+        ys.foldl (fun m y => if m < y then y else m) a ∈ ys by
+      rcases H xs x with h | h
+      · rw [h]; simp
+      · exact List.mem_cons_of_mem _ h
+    intro ys
+    induction ys with
+    | nil => intro a; left; rfl
+    | cons y ys ih =>
+      intro a
+      rw [List.foldl_cons]
+      by_cases hlt : a < y
+      · rw [if_pos hlt]
+        rcases ih y with h | h
+        · right; rw [h]; simp
+        · right; exact List.mem_cons_of_mem _ h
+      · rw [if_neg hlt]
+        rcases ih a with h | h
+        · left; exact h
+        · right; exact List.mem_cons_of_mem _ h
+
+/-- **`condSample_spec`** — a successful `conditional_sample` is the composition of the four
+pieces the theorems above are about, on ONE density (`condPdf`): the `x_max` search from
+`c.hi` (→ `xmax_search_spec`), the envelope `f_max = max(pdf(linspace(x_min, x_max, gridN))) ·
+slack` (the maximum is attained on the grid), and the rejection loop on the batches drawn for
+that `x_max`/`f_max` (→ `accepted_spec`, `maxiter_branch_spec`). -/
+theorem condSample_spec (pdfRow : List α → α) (linspace : α → α → Nat → List α) (c : RejConst α)
+    (nDim dim : Nat) (given : List α) (n maxIter : Nat) (draws : α → α → List (List α × List α))
+    (co : CondOut α)
+    (h : condSample pdfRow linspace c nDim dim given n maxIter draws = .ok co) :
+    (xHat nDim dim given c.hi).isSome = true ∧
+    xmaxSearch (condPdf pdfRow nDim dim given) c.thr c.mult c.lo 64 c.hi =
+      some (co.xMax, co.xMaxWarning) ∧
+    (∃ m, listMax ((linspace c.xMin co.xMax c.gridN).map (condPdf pdfRow nDim dim given)) = some m ∧
+      m ∈ (linspace c.xMin co.xMax c.gridN).map (condPdf pdfRow nDim dim given) ∧
+      co.fMax = m * c.slack) ∧
+    rejSample (condPdf pdfRow nDim dim given) n maxIter (draws co.xMax co.fMax) = .ok co.out := by
+  unfold condSample at h
+  cases hx : xHat nDim dim given c.hi with
+  | none => rw [hx] at h; cases h
+  | some r0 =>
+    rw [hx] at h
+    dsimp only at h
+    replace h : (match xmaxSearch (condPdf pdfRow nDim dim given) c.thr c.mult c.lo 64 c.hi with
+      | none => Except.error RejErr.xmaxFuel
+      | some (xMax, w) =>
+        match listMax ((linspace c.xMin xMax c.gridN).map (condPdf pdfRow nDim dim given)) with
+        | none => Except.error RejErr.emptyGrid
+        | some m =>
+          match rejSample (condPdf pdfRow nDim dim given) n maxIter (draws xMax (m * c.slack)) with
+          | Except.error e => Except.error e
+          | Except.ok o =>
+            Except.ok ({ xMax := xMax, xMaxWarning := w, fMax := m * c.slack, out := o } : CondOut α))
+        = Except.ok co := h
+    cases hs : xmaxSearch (condPdf pdfRow nDim dim given) c.thr c.mult c.lo 64 c.hi with
+    | none => rw [hs] at h; cases h
+    | some r =>
+      obtain ⟨xMax, w⟩ := r
+      rw [hs] at h
+      dsimp only at h
+      cases hm : listMax ((linspace c.xMin xMax c.gridN).map (condPdf pdfRow nDim dim given)) with
+      | none => rw [hm] at h; cases h
+      | some m =>
+        rw [hm] at h
+        dsimp only at h
+        cases hr : rejSample (condPdf pdfRow nDim dim given) n maxIter (draws xMax (m * c.slack)) with
+        | error e => rw [hr] at h; cases h
+        | ok o =>
+          rw [hr] at h
+          simp only [Except.ok.injEq] at h
+          subst h
+          exact ⟨rfl, rfl, ⟨m, hm, listMax_mem _ _ hm, rfl⟩, hr⟩
+
+/-- **regular exit of `conditional_sample`, composed**: exactly `n` values, namely the first `n`
+accepted values of the replayed stream in stream order, and every returned value `x` was drawn
+together with a `y` below the JOINT density at the row `(given…, x at dim, …given)`. -/
+theorem condSample_accepted_spec (pdfRow : List α → α) (linspace : α → α → Nat → List α)
+    (c : RejConst α) (nDim dim : Nat) (given : List α) (n maxIter : Nat)
+    (draws : α → α → List (List α × List α)) (co : CondOut α)
+    (hd : dim < nDim) (hg : given.length + 1 = nDim)
+    (h : condSample pdfRow linspace c nDim dim given n maxIter draws = .ok co)
+    (hw : co.out.maxIterWarning = false) :
+    co.out.sample = (acceptedOf (condPdf pdfRow nDim dim given) (draws co.xMax co.fMax)
+      co.out.iterations).take n ∧
+    co.out.sample.length = n ∧
+    ∀ x ∈ co.out.sample, ∃ b ∈ draws co.xMax co.fMax, ∃ y, (x, y) ∈ b.1.zip b.2 ∧
+      y < pdfRow (given.take dim ++ x :: given.drop dim) := by
+  obtain ⟨_, _, _, hr⟩ := condSample_spec pdfRow linspace c nDim dim given n maxIter draws co h
+  obtain ⟨h1, h2, _⟩ := accepted_spec _ n maxIter _ co.out hr hw
+  refine ⟨h1, h2, ?_⟩
+  intro x hx
+  rw [h1] at hx
+  obtain ⟨b, hb, y, hy, hlt⟩ := mem_acceptedOf _ _ _ x (List.mem_of_mem_take hx)
+  exact ⟨b, hb, y, hy, by rw [← condPdf_eq pdfRow nDim dim given hd hg]; exact hlt⟩
+
+/-- **`max_iter` exit of `conditional_sample`, composed** -/
+theorem condSample_maxiter_spec (pdfRow : List α → α) (linspace : α → α → Nat → List α)
+    (c : RejConst α) (nDim dim : Nat) (given : List α) (n maxIter : Nat)
+    (draws : α → α → List (List α × List α)) (co : CondOut α)
+    (h : condSample pdfRow linspace c nDim dim given n maxIter draws = .ok co)
+    (hw : co.out.maxIterWarning = true) :
+    co.out.sample = acceptedOf (condPdf pdfRow nDim dim given) (draws co.xMax co.fMax)
+      co.out.iterations ∧ co.out.sample ≠ [] :=
+  let hr := (condSample_spec pdfRow linspace c nDim dim given n maxIter draws co h).2.2.2
+  let hs := maxiter_branch_spec _ n maxIter _ co.out hr hw
+  ⟨hs.1, hs.2.1⟩
+
+/-- **`CouldNotSampleError` of `conditional_sample`, composed**: it comes from the rejection loop
+only — `x_max` and `f_max` were found, all `max_iter` batches were drawn and not a single `y` lay
+below the joint density at its row. -/
+theorem condSample_could_not_sample (pdfRow : List α → α) (linspace : α → α → Nat → List α)
+    (c : RejConst α) (nDim dim : Nat) (given : List α) (n maxIter : Nat)
+    (draws : α → α → List (List α × List α))
+    (h : condSample pdfRow linspace c nDim dim given n maxIter draws = .error .couldNotSample) :
+    ∃ xMax w m, xmaxSearch (condPdf pdfRow nDim dim given) c.thr c.mult c.lo 64 c.hi = some (xMax, w) ∧
+      listMax ((linspace c.xMin xMax c.gridN).map (condPdf pdfRow nDim dim given)) = some m ∧
+      0 < n ∧ 0 < maxIter ∧ maxIter ≤ (draws xMax (m * c.slack)).length ∧
+      acceptedOf (condPdf pdfRow nDim dim given) (draws xMax (m * c.slack)) maxIter = [] := by
+  unfold condSample at h
+  cases hx : xHat nDim dim given c.hi with
+  | none => rw [hx] at h; simp at h
+  | some r0 =>
+    rw [hx] at h
+    dsimp only at h
+    replace h : (match xmaxSearch (condPdf pdfRow nDim dim given) c.thr c.mult c.lo 64 c.hi with
+      | none => Except.error RejErr.xmaxFuel
+      | some (xMax, w) =>
+        match listMax ((linspace c.xMin xMax c.gridN).map (condPdf pdfRow nDim dim given)) with
+        | none => Except.error RejErr.emptyGrid
+        | some m =>
+          match rejSample (condPdf pdfRow nDim dim given) n maxIter (draws xMax (m * c.slack)) with
+          | Except.error e => Except.error e
+          | Except.ok o =>
+            Except.ok ({ xMax := xMax, xMaxWarning := w, fMax := m * c.slack, out := o } : CondOut α))
+        = Except.error RejErr.couldNotSample := h
+    cases hs : xmaxSearch (condPdf pdfRow nDim dim given) c.thr c.mult c.lo 64 c.hi with
+    | none => rw [hs] at h; simp at h
+    | some r =>
+      obtain ⟨xMax, w⟩ := r
+      rw [hs] at h
+      dsimp only at h
+      cases hm : listMax ((linspace c.xMin xMax c.gridN).map (condPdf pdfRow nDim dim given)) with
+      | none => rw [hm] at h; simp at h
+      | some m =>
+        rw [hm] at h
+        dsimp only at h
+        cases hr : rejSample (condPdf pdfRow nDim dim given) n maxIter (draws xMax (m * c.slack)) with
+        | ok o => rw [hr] at h; simp at h
+        | error e =>
+          rw [hr] at h
+          simp only [Except.error.injEq] at h
+          subst h
+          exact ⟨xMax, w, m, rfl, hm, could_not_sample_spec _ n maxIter _ hr⟩
+
+end cond
+
+section condfield
+variable {K : Type} [Field K] [LinearOrder K] [IsStrictOrderedRing K]
+
+omit [Field K] [IsStrictOrderedRing K] in
+theorem listMax_ge (l : List K) (m : K) (h : listMax l = some m) : ∀ v ∈ l, v ≤ m := by
+  cases l with
+  | nil => simp [listMax] at h
+  | cons x xs =>
+    simp only [listMax, Option.some.injEq] at h
+    subst h
+    suffices H : ∀ (ys : List K) (a : K),
+        a ≤ ys.foldl (fun m y => if m < y then y else m) a ∧
+        ∀ v ∈ ys, v ≤ ys.foldl (fun m y => if m < y then y else m) a by
+      intro v hv
+      rcases List.mem_cons.mp hv with rfl | hv
+      · exact (H xs v).1
+      · exact (H xs x).2 v hv
+    intro ys
+    induction ys with
+    | nil => intro a; exact ⟨le_refl _, fun v hv => by cases hv⟩
+    | cons y ys ih =>
+      intro a
+      rw [List.foldl_cons]
+      by_cases hlt : a < y
+      · rw [if_pos hlt]
+        obtain ⟨h1, h2⟩ := ih y
+        refine ⟨le_trans hlt.le h1, ?_⟩
+        intro v hv
+        rcases List.mem_cons.mp hv with rfl | hv
+        · exact h1
+        · exact h2 v hv
+      · rw [if_neg hlt]
+        obtain ⟨h1, h2⟩ := ih a
+        refine ⟨h1, ?_⟩
+        intro v hv
+        rcases List.mem_cons.mp hv with rfl | hv
+        · exact le_trans (not_lt.mp hlt) h1
+        · exact h2 v hv
+
+/-- **the envelope** (ordered field; at `Float` the same holds without NaNs): `f_max` is
+`slack` times the largest density value ON THE GRID `linspace(x_min, x_max, gridN)`; with
+`slack ≥ 1` and a non-negative density it dominates every grid value.  (It does NOT bound the
+density between grid points: a density with a peak narrower than the grid spacing is
+under-covered — not a theorem, not observed on the shipped models.) -/
+theorem condSample_envelope (pdfRow : List K → K) (linspace : K → K → Nat → List K)
+    (c : RejConst K) (nDim dim : Nat) (given : List K) (n maxIter : Nat)
+    (draws : K → K → List (List K × List K)) (co : CondOut K)
+    (h : condSample pdfRow linspace c nDim dim given n maxIter draws = .ok co)
+    (hslack : 1 ≤ c.slack) (hnn : ∀ x, 0 ≤ condPdf pdfRow nDim dim given x) :
+    ∀ x ∈ linspace c.xMin co.xMax c.gridN, condPdf pdfRow nDim dim given x ≤ co.fMax := by
+  obtain ⟨_, _, ⟨m, hm, hmem, hf⟩, _⟩ :=
+    condSample_spec pdfRow linspace c nDim dim given n maxIter draws co h
+  intro x hx
+  have h1 : condPdf pdfRow nDim dim given x ≤ m :=
+    listMax_ge _ m hm _ (List.mem_map.mpr ⟨x, hx, rfl⟩)
+  have hm0 : 0 ≤ m := le_trans (hnn x) h1
+  rw [hf]
+  calc condPdf pdfRow nDim dim given x ≤ m := h1
+    _ = m * 1 := (mul_one m).symm
+    _ ≤ m * c.slack := mul_le_mul_of_nonneg_left hslack hm0
+end condfield
+
+/-- non-vacuity of `condSample_spec` / `condSample_accepted_spec` (natural numbers as carrier):
+2-D, `dim = 1`, given `[7]`, density `5` on every row, grid = the two end points, one batch -/
+example : (condSample (fun _ : List Nat => 5) (fun a b _ => [a, b])
+    ⟨1, 100, 1, 3, 1, 2, 2⟩ 2 1 [7] 1 100
+    (fun _ _ => [([1, 2, 3, 4, 5, 6, 7, 8, 9, 10], [9, 7, 3, 1, 9, 9, 9, 9, 9, 2])])).toOption.map
+      (fun co => (co.xMax, co.xMaxWarning, co.fMax, co.out.sample)) = some (100, false, 10, [3]) := by
+  decide
 
 /-- witness: triangular density on `[0, 20]` with mode 10 (integral 1, maximum 1/10) -/
 def tri (x : ℚ) : ℚ :=
